@@ -501,6 +501,7 @@ pub fn run(ctx: &mut Ctx) {
     ctx.floor("class.incomplete", 100_000);
     ctx.floor("corpus.items", 10_000);
     ctx.floor("large.cases", 8);
+    ctx.floor("utf8.names", 5_000);
     ctx.floor("defrag.ops", 50_000);
     ctx.floor("defrag.streams", 1);
     if !alloc::installed() {
@@ -528,6 +529,42 @@ pub fn run(ctx: &mut Ctx) {
             let a = aux_for(r, input.len());
             call(ctx, e, kind, &input, &a, &mut s);
         }
+    });
+
+
+    // ------------------------------------------------ text-bearing fields: valid UTF-8 names of every length up to 700 bytes,
+    // multi-byte characters at every alignment (Debug impls decode these as strings)
+    let n = ctx.tier.pick(6_000, 60_000);
+    ctx.family("utf8-names", n, |ctx, case: &mut Case| {
+        let r = &mut case.rng;
+        let mk = |r: &mut Rng| -> Vec<u8> {
+            let mut t = gen::utf8_text(r, 40);
+            // a run of ASCII of chosen length, then multi-byte text: puts a character boundary question at every offset
+            let pad = r.usize(0, 700);
+            let mut v: Vec<u8> = (0..pad).map(|i| b'a' + (i % 26) as u8).collect();
+            v.append(&mut t);
+            v.extend(gen::utf8_text(r, 300));
+            while v.len() > 900 {
+                v.pop();
+            }
+            // keep it valid UTF-8 after the cut
+            while std::str::from_utf8(&v).is_err() {
+                v.pop();
+            }
+            v
+        };
+        let a = match case.idx % 3 {
+            0 => refenc::AExt::Sni(vec![(0, mk(r))]),
+            1 => refenc::AExt::Sni(vec![(0, gen::utf8_text(r, 20)), (r.u8(), mk(r))]),
+            _ => refenc::AExt::Alpn((0..r.usize(1, 4)).map(|_| { let mut x = mk(r); x.truncate(255); while std::str::from_utf8(&x).is_err() { x.pop(); } x }).collect()),
+        };
+        let input = a.to_bytes();
+        let mut s = String::new();
+        for e in reg.iter().filter(|e| e.name.contains("extension")) {
+            let aux = Aux { len: input.len(), flag: false, ty: 0x16, hlen: input.len().min(65535) as u16 };
+            call(ctx, e, "utf8-names", &input, &aux, &mut s);
+        }
+        ctx.count("utf8.names");
     });
 
     // ------------------------------------------------ every length 0..20 of three patterns, all entry points, all aux lens
